@@ -3,6 +3,9 @@ import json
 import framework as fw
 
 
+TD = [32]        # schoolbook / divide-and-conquer switch, set from the source in run()
+
+
 def cover(e):
     cs = ["types:%s%s" % (e["lt"], e["rt"]), "src:" + e["src"]]
     wa, wb = fw.nwords(e["a"]), fw.nwords(e["b"])
@@ -11,9 +14,9 @@ def cover(e):
         cs.append("zero-divisor")
         return cs
     cs.append("signs:%s%s" % ("-" if a < 0 else "+", "-" if b < 0 else "+"))
-    cs.append("divisor:" + ("1w" if wb == 1 else "2w" if wb == 2 else "3-32w" if wb <= 32 else ">32w"))
+    cs.append("divisor:" + ("1w" if wb == 1 else "2w" if wb == 2 else "3-32w" if wb <= TD[0] else ">32w"))
     wq = max(wa - wb + 1, 0)
-    if wb > 32 and wq > 32:
+    if wb > TD[0] and wq > TD[0]:
         cs.append("divide-and-conquer")
     if wb == 2 and abs(b) & (abs(b) - 1) == 0:
         cs.append("dword-power-of-two")
@@ -52,8 +55,13 @@ def run(ctx):
     ctx.mc("mc-divalg", "C02", "IntDivAlg.tla", cfg, required_actions=["Pick"])
     ctx.scope.update({"IntDivAlg.MaxV": maxv})
     # spec -> impl
-    divc = ctx.pick([0, 1, 2, 3, 32, 33, 34], [0, 1, 2, 3, 4, 16, 31, 32, 33, 34, 40, 70])
-    quoc = ctx.pick([0, 1, 2, 32, 33, 34], [0, 1, 2, 3, 16, 31, 32, 33, 34, 40, 70])
+    # the size classes follow the schoolbook / divide-and-conquer switch of the code (read from the source)
+    sc = fw.source_constants()
+    td = sc["DIV_THRESHOLD_SIMPLE"]
+    TD[0] = td
+    divc = sorted(set(ctx.pick([0, 1, 2, 3, td, td + 1, td + 2], [0, 1, 2, 3, 4, 16, td - 1, td, td + 1, td + 2, td + 8, 2 * td + 6])))
+    quoc = sorted(set(ctx.pick([0, 1, 2, td, td + 1, td + 2], [0, 1, 2, 3, 16, td - 1, td, td + 1, td + 2, td + 8, 2 * td + 6])))
+    ctx.scope.update({"source_constants": sc})
     k = ctx.pick(7, 14)
     ctx.scope.update({"divisor_classes_words": divc, "quotient_classes_words": quoc, "variants": k})
     cfg = fw.write_cfg(ctx.path("Gen_C02.cfg"), invariants=["Emit"],
